@@ -152,6 +152,9 @@ def report(rep, binary, wd, problems, proof_broken):
     others = [p for p in problems if p[1] not in ('impl-violates-spec', 'impl-panics')]
     if genuine:
         line, kind, detail, src = genuine[0]
+        if line.startswith('real '):
+            # a scenario on the real Wait loop: say everything that failed in it (its batches and its end-to-end facts)
+            detail = ' || '.join(p[2][:700] for p in genuine if p[0] == line and p[3] == src)
         small = pollrun.shrink(binary, line, kind, os.path.join(wd, 'shrink')) if line.startswith('batch') else line
         rep.violation('the real handler violates the C11 spec oracle on this batch (%d such batches; first, shrunk, is the replay; source: %s): %s'
                       % (len(genuine), src, detail), [small])
